@@ -216,28 +216,25 @@ theorem distinctChunk_eq [DecidableEq κ] (key : α → κ) (cap : Nat) (seen : 
       · rw [ih (key r :: seen) (acc ++ [r]) (by simp at h ⊢; omega)]
         simp
 
-/-- F (hypothesis: no input chunk exceeds the builder capacity — true of every producer that
-respects the 2048-row chunk size): DISTINCT returns the first row of every key once, in order,
-for every chunking. -/
+/-- F: DISTINCT returns the first row of every key once, in order, for every chunking and every
+chunk size (the output builder is sized to the input chunk). -/
 theorem c11_distinct_eq_dedup [DecidableEq κ] (key : α → κ) (cap : Nat) (seen : List κ)
-    (cs : List (List α)) (hcap : ∀ c ∈ cs, c.length ≤ cap) :
+    (cs : List (List α)) :
     (distinctOp key cap seen cs).flatten = (dedupKey key seen cs.flatten).2 := by
   induction cs generalizing seen with
   | nil => simp [distinctOp, dedupKey]
   | cons c cs ih =>
-    have hc := hcap c (by simp)
-    have hrest : ∀ c' ∈ cs, c'.length ≤ cap := fun c' h => hcap c' (by simp [h])
     simp only [distinctOp, List.flatten_cons]
-    rw [distinctChunk_eq key cap seen [] c (by simpa using hc)]
+    rw [distinctChunk_eq key (max cap c.length) seen [] c (by simp; omega)]
     simp only [List.nil_append]
     rw [dedupKey_append]
     simp only
     split
-    · simp [ih _ hrest]
+    · simp [ih]
     · rename_i hz
       have : (dedupKey key seen c).2 = [] := by
         apply List.length_eq_zero_iff.mp; omega
-      simp [ih _ hrest, this]
+      simp [ih, this]
 
 /-- F: what `dedupKey` returns has pairwise different keys and the same key set as its input
 (so with an injective key function: every row of the input exactly once). -/
@@ -283,12 +280,12 @@ theorem c11_dedup_keys [DecidableEq κ] (key : α → κ) (seen : List κ) (l : 
             · exact Or.inl hk
             · exact Or.inr ⟨a, by simp [hk, b]⟩
 
-/-- W: a child chunk larger than the builder capacity loses rows — the operator returns as soon
-as its output builder is full and never revisits the rest of that input chunk
-(capacity 2 here; 2048 in the code). -/
-theorem c11_distinct_oversized_chunk_loses_rows_witness :
-    (distinctOp (fun (x : Nat) => x) 2 [] [[1, 2, 3], [4]]).flatten = [1, 2, 4] ∧
-    (dedupKey (fun (x : Nat) => x) [] [1, 2, 3, 4]).2 = [1, 2, 3, 4] := by decide
+/-- R (regression example of a repaired defect): with a builder of fixed capacity (2 here, 2048 in
+the code before commit "fix: DISTINCT sizes its output to the input chunk") a larger child chunk
+lost rows: `distinctChunk` at capacity 2 stops after two new rows. -/
+theorem c11_distinct_fixed_capacity_loses_rows_regression :
+    (distinctChunk (fun (x : Nat) => x) 2 [] [] [1, 2, 3]).2 = [1, 2] ∧
+    (distinctOp (fun (x : Nat) => x) 2 [] [[1, 2, 3], [4]]).flatten = [1, 2, 3, 4] := by decide
 
 /-- N: non-vacuity (duplicates across and inside chunks, an empty chunk). -/
 example : (distinctOp (fun (x : Nat) => x % 3) 4 [] [[1, 4, 2], [], [5, 3]]).flatten = [1, 2, 3] := by decide
